@@ -319,6 +319,12 @@ def build():
     add("varpc_n/f64", "pure", lambda: dict(c=np.array([4.0, 2.0, 2.0, 1.0])), lambda a: [prs.varpc_n(a["c"]), prs.stdpc_n(a["c"]), prs.pc_n(a["c"])])
     add("chao/f64", "pure", lambda: dict(c=np.array([4.0, 2.0, 1.0])), lambda a: [prs.chao1(a["c"]), prs.var_chao1(a["c"]), prs.chao2(a["c"], 3), prs.var_chao2(a["c"], 3)])
     add("subsample/f64_counts", "random", lambda: dict(c=np.array([3, 0, 2, 5])), lambda a: prs.subsample(a["c"], 4))
+    # ---- randomised calls on inputs far beyond the small ones above (bulk code paths, size thresholds): still a function of the seed
+    add("subsample/two_million_items", "random", lambda: dict(c=np.arange(1, 2001)), lambda a: prs.subsample(a["c"], 40), slow=True)
+    add("downsample/large", "random", lambda: dict(s=[f"CAS{i}F" for i in range(30000)]), lambda a: list(prs.downsample(a["s"], 6)), slow=True)
+    add("powerlaw_sample/large", "random", dict, lambda a: (lambda x: [len(x), float(np.sum(x[:1000])), [float(v) for v in x[-3:]]])(prs.powerlaw_sample(size=150000, xmin=1, alpha=2.2)), slow=True)
+    add("pcDelta/maxseqs_large", "random", lambda: dict(s=[("CASS" + "ACDEFGHIKL"[i % 10] + "ACDEFGHIKL"[(i // 10) % 10] + "F") for i in range(1500)]),
+        lambda a: prs.pcDelta(a["s"], bins=np.arange(0, 5), maxseqs=12), slow=True)
     add("powerlaw_mle_alpha/f64", "pure", lambda: dict(c=np.array([1.0, 2.0, 2.0, 5.0, 9.0])), lambda a: [prs.powerlaw_mle_alpha(a["c"], method="simple"), prs.powerlaw_mle_alpha(a["c"], cmin=2.0, method="continuitycorrection")])
     add("pcDelta/ndarray_bins", "pure", lambda: dict(s=np.array(SEQS, dtype=object), b=np.array([0.0, 1.0, 2.0, 5.0])), lambda a: prs.pcDelta(a["s"], bins=a["b"], pseudocount=0.5))
     # ---- long-lived metric objects (created once per interpreter, before any call): a metric keeps ITS weights whatever other
